@@ -92,6 +92,8 @@ def run_history(ctx: Ctx, ops_sym, tag: str, corpus: bool = False):
         if status == "ok":
             if op["op"] == "extend" and str(out).startswith("x"):
                 ctx.count("extend:compared-with-list-of-records-extend")
+            if op["op"] == "extend" and str(out) in ("s0", "s1"):
+                ctx.count("extend:splitSharing-predicate=" + str(out)[1] + "(model=real=reference)")
             impl_out.append("ok:-:~" if quiet else f"ok:{out}:{render_world(rw)}")
         else:
             impl_out.append(f"ERR:{out}")
@@ -103,7 +105,7 @@ def run_history(ctx: Ctx, ops_sym, tag: str, corpus: bool = False):
         if getattr(rf, "or_fields_used", False):
             ctx.count("filter:on-<name>_self/_other-fields")
         if getattr(rf, "shared_one_sided", False):
-            ctx.count("oracle-skip:one-array-under-two-names,-one-name-missing-in-the-other-dataset")
+            ctx.count("one-array-under-two-names,-one-name-missing-in-the-other-dataset:" + op["op"])
         if getattr(rf, "pad_refused", False):
             ctx.count("pad-of-gps-format-time-field-refused:" + ("raises-" + str(out) if status != "ok" else "NOT-REFUSED"))
         if exp_status == "ok":
